@@ -122,6 +122,8 @@ theorem zc_full_only_if_pool_exhausted {n : Nat} (hn : 0 < n) {s : St} (h : Reac
   | dDrop id v => simp [step, hz] at hnew
   | dFreeHook id v => simp [step, hz] at hnew
   | dFree id v => simp only [step, hz] at hnew; split at hnew <;> simp [hz] at hnew
+  | ePubLen v => simp only [step, hz] at hnew; split at hnew <;> simp [hz] at hnew
+  | dFreeLen v => simp only [step, hz] at hnew; split at hnew <;> simp [hz] at hnew
   | lLen => simp [step, hz] at hnew
 
 
@@ -152,6 +154,8 @@ theorem zc_pool_stable {n : Nat} (hn : 0 < n) {s : St} (h : Reachable n s) (t id
     | ePub w id' => simp only [step, hz] at hc; split at hc <;> exact absurd rfl hc
     | dCons => simp only [step, hz] at hc; split at hc <;> exact absurd rfl hc
     | dFree id' w => simp only [step, hz] at hc; split at hc <;> exact absurd rfl hc
+    | ePubLen w => simp only [step, hz] at hc; split at hc <;> exact absurd rfl hc
+    | dFreeLen w => simp only [step, hz] at hc; split at hc <;> exact absurd rfl hc
     | _ => simp [step, hz, setThr] at hc
   refine ⟨hfree, ?_, ?_⟩
   · intro hq
